@@ -147,9 +147,15 @@ class Strata:
         return clean
 
 
-def judge(run, prog: dict, res: dict, what: str, counts: dict) -> str:
+def judge(run, prog: dict, res: dict, what: str, counts: dict, types: bool = False) -> str:
     """Clean-stratum verdict for one executed program.  Returns the outcome class."""
     o = outcome(res)
+    if types and o == "ok" and res["verdict"]["narrowed"]:
+        counts["narrowed"] = counts.get("narrowed", 0) + 1
+        nm = res["verdict"]["narrowed"]
+        run.violation(f"{what} {prog['id']}: declared C++ type narrower than the values the name holds: "
+                      + ", ".join(f"{n}: declared {res['decl'].get(n)} holds {res['verdict']['ty'].get(n)}" for n in nm[:4]), replay_of(prog, res))
+        return "narrowed"
     counts[o] = counts.get(o, 0) + 1
     if o == "specgap":
         run.spec_gap(f"{prog['id']}: CPython disagrees with the Lang spec ({res['py'].get('cls')} {res['py'].get('msg')}; "
@@ -160,7 +166,7 @@ def judge(run, prog: dict, res: dict, what: str, counts: dict) -> str:
     return o
 
 
-def run_packed(run, snips: list, mode: str, what: str, counts: dict, size: int = 24, prefix: str = "pk") -> None:
+def run_packed(run, snips: list, mode: str, what: str, counts: dict, size: int = 24, prefix: str = "pk", types: bool = False) -> None:
     """Clean snippets packed `size` per firmware; a pack that does not conform is re-run snippet by snippet so
     the verdict names the failing snippet and one failing snippet cannot hide another."""
     packs = langgen.pack(snips, size, mode, prefix)
@@ -171,7 +177,7 @@ def run_packed(run, snips: list, mode: str, what: str, counts: dict, size: int =
         r = res[p["id"]]
         for sid in p["snips"]:
             run.count(f"{what}:{mode}:{sid}")
-        if outcome(r) != "ok":
+        if outcome(r) != "ok" or (types and r["verdict"]["narrowed"]):
             redo += [byid[sid] for sid in p["snips"]]
         else:
             counts["ok"] = counts.get("ok", 0) + len(p["snips"])
@@ -179,6 +185,6 @@ def run_packed(run, snips: list, mode: str, what: str, counts: dict, size: int =
         singles = [langgen.single(s, mode) for s in redo]
         sres = lang.three_way(singles, run, f"{what} singles/{mode}")
         for p in singles:
-            judge(run, p, sres[p["id"]], what, counts)
+            judge(run, p, sres[p["id"]], what, counts, types)
     if packs:
         run.sample({"family": what, "mode": mode, "script": body_of(res[packs[0]["id"]]["src"])[:600]})
